@@ -51,6 +51,18 @@ func maxAmp[T constraints.Integer]() int64 { return int64(^uint64(0) >> (65 - wi
 func conv2[S, D signal.SignalTypes](conv func(*signal.Buffer[S], *signal.Buffer[D]) int, x0, x1 S) (D, D) {
 	a := signal.Allocator{Channels: 1, Length: 2, Capacity: 2}
 	layout := vf.PickOnce("layout", 0, 2+vf.Param("BigLayout", 0))
+	if vf.Param("WindowLayout", 1) == 1 && vf.PickOnce("windows", 0, 1) == 1 {
+		// both operands are windows (frame 1 onwards) of larger buffers
+		bs := signal.Alloc[S](signal.Allocator{Channels: 1, Length: 3, Capacity: 4})
+		bd := signal.Alloc[D](signal.Allocator{Channels: 1, Length: 3, Capacity: 4})
+		src, dst := bs.Slice(1, 3), bd.Slice(1, 3)
+		dst.SetSample(0, 1)
+		dst.SetSample(1, 1)
+		src.SetSample(0, x0)
+		src.SetSample(1, x1)
+		vf.Assert("frames-converted", conv(src, dst) == 2)
+		return dst.Sample(0), dst.Sample(1)
+	}
 	if layout == 1 {
 		a = signal.Allocator{Channels: 2, Length: 1, Capacity: 1}
 	}
